@@ -13,7 +13,7 @@ PROP = "C19"
 RULE = ("cases: (a) codec - code ids of all three kinds (PE timestamp/size incl. 0 and u32::MAX, Mach-O UUIDs, ELF build ids of 0..40 bytes incl. the lengths 1..8 and 16-byte ids with and without hex letters): "
         "printed by the implementation, read back by the implementation, compared with the original and with the model; (b) end to end - recordings with 1..3 processes mapping 1..4 ELF files each "
         "(fixtures with debug info / stripped / with .gnu_debuglink, and ELF files generated with gcc+ld: PIE and non-PIE, default sha1 build id, custom build ids of 1..20 bytes, no build id; copied "
-        "under different file names) at arbitrary page-aligned load addresses, mapping the executable segment from its first or a later page; samples with 1..6 frames at random addresses inside the mappings; "
+        "under different file names, or recorded under a path that does not exist while the binary lies next to perf.data) at arbitrary page-aligned load addresses, mapping the executable segment from its first or a later page; samples with 1..6 frames at random addresses inside the mappings; "
         "converted by `samply import --save-only` to .json or .json.gz; served by `samply load`; every library of libs[] asked for by (debugName, breakpadId) with every relative address its frames use. "
         "non-trivial = an ambiguous code id (a), or a profile with at least two libraries (b)")
 TRUSTED = ["the breakpad-id codec of the debugid crate (a section hypothesis of the theorems; every id met end to end goes through it)",
@@ -116,9 +116,9 @@ def gen(tier, rng, scale):
         files = []
         for _ in range(nfiles):
             if rng.chance(1, 2):
-                files.append(["fx", rng.choice(ELF_FIXTURES), rng.choice(["", "", "renamed.so", "lib with space.so"])])
+                files.append(["fx", rng.choice(ELF_FIXTURES), rng.choice(["", "", "renamed.so", "lib with space.so", "moved:libmoved%d.so" % len(files)])])
             else:
-                files.append(["gen", rng.next(), rng.choice(["", "libgen.so.1", "a.out"])])
+                files.append(["gen", rng.next(), rng.choice(["", "libgen.so.1", "a.out", "moved:genmoved%d.so" % len(files)])])
         cases.append({"kind": "e2e", "gz": rng.chance(1, 2), "seed": rng.next(), "items": files})
     return cases
 
@@ -162,7 +162,14 @@ def run_e2e(samply, hsym, case, d, port_base):
             p = gen_elf(K.SplitMix64(arg), sub, i)
             if p is None:
                 continue
-        if rename:
+        mapped_as = None
+        if rename.startswith("moved:"):
+            # the recording names a path that does not exist on this machine; the binary lies next to perf.data (where the importer also looks)
+            q = os.path.join(d, rename[6:])
+            shutil.copy(p, q)
+            p = q
+            mapped_as = "/no/such/dir%d/%s" % (i, rename[6:])
+        elif rename:
             sub = os.path.join(d, "r%d" % i)
             os.makedirs(sub, exist_ok=True)
             q = os.path.join(sub, rename)
@@ -170,7 +177,7 @@ def run_e2e(samply, hsym, case, d, port_base):
             p = q
         seg = elf_exec_segment(p)
         if seg:
-            paths.append((p, seg))
+            paths.append((mapped_as or p, seg))
     if not paths:
         return {"skip": "no ELF could be produced"}
     T = 10 ** 9
